@@ -8,7 +8,10 @@ MICRO = 1000000
 
 
 def micro(x):
-    v = int(round(float(x) * MICRO))
+    x = float(x)
+    if x != x:                      # NaN statistic: as far from any expectation as the fixed point allows
+        return 2000000000
+    v = int(round(max(-2.1e3, min(2.1e3, x)) * MICRO))
     return max(-2000000000, min(2000000000, v))
 
 
